@@ -354,3 +354,41 @@ Proof.
     apply sub_remove_everywhere_subscribers. exact H.
   - split; [apply wf_nil|]. intros et'. reflexivity.
 Qed.
+
+(* ---------- several producers ---------- *)
+Lemma prod_subs_nil p : prod_subs [] p = [].
+Proof. unfold prod_subs. destruct p; reflexivity. Qed.
+
+(* upd_prod changes producer p's map and nobody else's *)
+Lemma prod_subs_upd p f : forall ps q,
+  prod_subs (upd_prod p f ps) q = if Nat.eqb q p then f (prod_subs ps p) else prod_subs ps q.
+Proof.
+  induction p as [|p IH]; intros [|m r] [|q]; cbn; try reflexivity.
+  - destruct q; reflexivity.
+  - change (nth q (upd_prod p f []) []) with (prod_subs (upd_prod p f []) q).
+    rewrite IH, !prod_subs_nil. reflexivity.
+  - change (nth q (upd_prod p f r) []) with (prod_subs (upd_prod p f r) q).
+    rewrite IH. reflexivity.
+Qed.
+
+(* every producer's map is well formed *)
+Definition wfs (ps : prods) : Prop := Forall wf ps.
+
+Lemma wfs_nil : wfs [].
+Proof. constructor. Qed.
+
+Lemma wfs_prod ps p : wfs ps -> wf (prod_subs ps p).
+Proof.
+  unfold prod_subs. revert p. induction ps as [|m r IH]; intros p H.
+  - destruct p; apply wf_nil.
+  - inversion H; subst. destruct p; cbn; [assumption|apply IH; assumption].
+Qed.
+
+Lemma wfs_upd p f : (forall m, wf m -> wf (f m)) -> forall ps, wfs ps -> wfs (upd_prod p f ps).
+Proof.
+  intros Hf. induction p as [|p IH]; intros [|m r] H; cbn.
+  - constructor; [apply Hf, wf_nil|constructor].
+  - inversion H; subst. constructor; [apply Hf; assumption|assumption].
+  - constructor; [apply wf_nil|apply IH; constructor].
+  - inversion H; subst. constructor; [assumption|apply IH; assumption].
+Qed.
